@@ -2,7 +2,7 @@
 import ast
 
 from ..loader import AnalysisError, attr_path, src, walk_no_nested_defs, norm_stmt, call_name
-from ..symx import SymX, classify, show, C, TRUE, FALSE, simp, is_const, mk_add, negate, mentions
+from ..symx import SymX, classify, show, C, TRUE, FALSE, simp, is_const, mk_add, negate, mentions, is_term
 from ..nf import SELF_NEXT, SF, KFold
 from . import kernels as K
 from . import shared
@@ -65,7 +65,7 @@ def _sub(t):
 
     def walk(x):
         if isinstance(x, tuple):
-            if x and isinstance(x[0], str):
+            if is_term(x):
                 out.append(x)
             for y in x:
                 walk(y)
